@@ -108,6 +108,38 @@ theorem C06_up_never_taints {view : View} (hnd : UniqueNames view) {dry : Bool} 
     (scaleUp o k dry cfg st g nowReal hint (nodesOf dry st0 .tainted view.nodes) want).j.countP (isTaintAdd view) = 0 :=
   scaleUp_noTaintAdd hnd o k cfg st g nowReal hint want
 
+/-- **C06 (above the scale-up threshold: nothing is removed by the scale-up itself).** No entry of `ScaleUp`'s journal
+    terminates an instance of the cloud group or deletes a Node object: it is an untaint attempt or part of the cloud
+    increase. (The force-removal reaper, which runs before the decision in every scan, is a separate sub-journal; the
+    grace reaper runs only for decisions ≤ 0: `scanAct`.) -/
+theorem C06_up_never_removes (o : Oracle) (k : Nat) (dry : Bool) (cfg : GroupCfg) (st : GState) (g : PGroup)
+    (nowReal : Int) (hint : List Nat) (tainted : List Node) (want : Int) :
+    ∀ e ∈ (scaleUp o k dry cfg st g nowReal hint tainted want).j, isRemovalEntry e = false := by
+  intro e he
+  obtain ⟨_, hs⟩ := scaleUp_entries o k dry cfg st g nowReal hint tainted want e he
+  cases hs with
+  | untaint c hc hh hdl =>
+    cases hdl with
+    | get b => rfl
+    | upd u b hn hhas => rfl
+  | increase hi =>
+    unfold isRemovalEntry isTerminateEntry isDeleteEntry
+    cases hc : e.call <;> simp_all [isIncreaseCall]
+
+/-- … and a positive decision reaches nothing but the force reaper and `ScaleUp`: the journal of `scanAct` is
+    `mj ++ force batch ++ ScaleUp`. -/
+theorem C06_up_shape (o : Oracle) (k : Nat) (dry : Bool) (cfg : GroupCfg) (st : GState) (g : PGroup) (pods : List Pod)
+    (h : Hints) (nowMock nowReal : Int) (untainted tainted force : List Node) (mj : Journal) (delta : Int) (hd : delta > 0)
+    (hf : (tryDelete o k g (forceCands dry pods force)).val.err ≠ .notInGroup) :
+    (scanAct o k dry cfg st g pods h nowMock nowReal untainted tainted force mj delta).j =
+      mj ++ (tryDelete o k g (forceCands dry pods force)).j ++
+      (scaleUp o (tryDelete o k g (forceCands dry pods force)).k dry cfg st (tryDelete o k g (forceCands dry pods force)).val.g
+        nowReal h.new tainted delta).j := by
+  unfold scanAct; dsimp only
+  have h1 : ¬ delta < 0 := by omega
+  simp only [hf, if_false, h1, hd, if_true]
+  split <;> rfl
+
 theorem C06_down_never_adds (o : Oracle) (k : Nat) (dry : Bool) (cfg : GroupCfg) (st : GState) (nowSec : Int)
     (hint : List Nat) (untainted : List Node) (n : Int) :
     ∀ e ∈ (scaleDownTaint o k dry cfg st nowSec hint untainted n).j, isResizeRequest e = false ∧
